@@ -4,7 +4,7 @@ CFG = {
     'level': 'fault_enumeration',
     'design_ref': '5.13 C13',
     'technique': 'runtime monitoring under the race detector: real sumdb.Clients against a misbehaving-operator world (two independently built logs sharing a prefix, both signed with the configured key); trace-based "depends on" oracle per lookup, compare-and-swap config monitor, security-callback monitor, schedule gates at the verif yield points for two clients sharing one config',
-    'level_text': 'All fork triples (prefix p, sizes a, b) up to 8 (thorough: 14 plus 400 sampled triples up to 40), tile heights 1,2,3,8, long-lived and per-lookup clients, three cache warmths, server switching A->B->A, and two concurrent clients fed by different branches on one config store (random schedule noise and a scripted compare-and-swap conflict): no lookup that consumed a response whose signed head is off the stored timeline may succeed, the stored head never changes on such a refusal, every config write extends the previous head on one branch, all installed heads lie on one branch, and a security error always comes with a callback carrying two mutually inconsistent authentic heads.'
+    'level_text': 'All fork triples (prefix p, sizes a, b) up to 8 (thorough: 14 plus 400 sampled triples up to 40), tile heights 1,2,3,8, long-lived and per-lookup clients, three cache warmths, server switching A->B->A (also with the forking server mixing the hashes of both branches per tile slot, in every width of a tile or only in the widest / only in the narrower copies it is asked for), and two concurrent clients fed by different branches on one config store (random schedule noise and a scripted compare-and-swap conflict): no lookup that consumed a response whose signed head is off the stored timeline may succeed, the stored head never changes on such a refusal, every config write extends the previous head on one branch, all installed heads lie on one branch, and a security error always comes with a callback carrying two mutually inconsistent authentic heads.'
                " Added after seeded changes: ONE client with two goroutines shown different branches (gate between consistency check and install; the install hook reports both heads and every in-memory install must stay on one branch), an honest log growing under 1-3 clients x 2-4 goroutines (config may never shrink), a restarted client whose init-time config read fails once, a forking server that mixes both branches' hashes per tile slot (tree shapes with de-duplicated tree-hash tiles such as 19/23 at height 2), and every security report of every scenario must carry two authentic mutually inconsistent heads.",
     'level_note': 'Fork shapes are enumerated exhaustively up to the bound; schedules of the concurrent scenarios are sampled (gate noise + one forced conflict script). Both branches are signed with the real key (operator misbehaviour). Trusts crypto and the independent log/note code in harness/world.',
     'race': True,
